@@ -97,7 +97,8 @@ Lemma insert_fill_ref s index count ch : inv s -> 0 <= index <= get_size s -> 0 
   get_size s + count <= cap s ->
   refines s (insert_fill_m s index count ch) (take index (contents s) ++ rep count ch ++ drop index (contents s)).
 Proof.
-  intros I Hi Hc Hfit. unfold insert_fill_m, rep. apply insert_fill_loop_ref; [exact I|exact Hi|lia].
+  intros I Hi Hc Hfit. unfold insert_fill_m, rep. replace (index >? get_size s) with false by lia.
+  apply insert_fill_loop_ref; [exact I|exact Hi|lia].
 Qed.
 
 (** * erase *)
